@@ -6,7 +6,11 @@
 //! every definition kind, deprecations with and without reasons on fields,
 //! arguments, input fields and enum values, `specifiedByURL`, a subscription
 //! root, interface inheritance as an arbitrary DAG (`interface C implements A
-//! & B`, chains of depth 3), interfaces without implementors, and types that
+//! & B`) and as straight chains of depth 3 to 5 (every type declares the full
+//! closure of what it implements, which the specification requires; a type
+//! that declares only its nearest interface is an invalid schema whose
+//! treatment by `dynamic::SchemaBuilder::finish` is not documented, so it is
+//! not generated), interfaces without implementors, and types that
 //! are reachable only through one particular route (possible type of an
 //! interface, member of a union, interface of an object, argument of a field).
 
@@ -223,7 +227,10 @@ pub fn gen_model(r: &mut Rng, o: &GenOpts) -> IModel {
     // composite output type names, fixed up front so that fields can refer to any of them
     let n_ob = 1 + g.r.below(5);
     let objs: Vec<String> = (0..n_ob).map(|i| format!("Ob{i}")).collect();
-    let n_if = g.r.below(5);
+    // now and then a straight inheritance chain of 3 to 5 interfaces (If0 <- If1 <- If2 ...): every later
+    // interface implements its predecessor and, as the specification demands, everything that one implements
+    let chain_mode = o.interface_inheritance && g.r.chance(1, 4);
+    let n_if = if chain_mode { 3 + g.r.below(3) } else { g.r.below(5) };
     let ifs: Vec<String> = (0..n_if).map(|i| format!("If{i}")).collect();
     let n_un = g.r.below(3);
     let uns: Vec<String> = (0..n_un).map(|i| format!("Un{i}")).collect();
@@ -259,7 +266,8 @@ pub fn gen_model(r: &mut Rng, o: &GenOpts) -> IModel {
         let mut fields: Vec<IField> = vec![];
         if o.interface_inheritance && i > 0 {
             for j in (0..i).rev() {
-                if g.r.chance(2, 5) && !implements.contains(&ifs[j]) {
+                let take = if chain_mode { j + 1 == i || g.r.chance(1, 6) } else { g.r.chance(2, 5) };
+                if take && !implements.contains(&ifs[j]) {
                     // Ij and everything Ij implements
                     let mut add = vec![ifs[j].clone()];
                     add.extend(if_impl[j].iter().cloned());
